@@ -9,7 +9,9 @@ CHECKS = [
                 "other axis) is discharged by z3 for all integers; group-extent and freeform-bound contracts likewise. "
                 "Unbounded in the inputs, so sequences of assignments are covered by induction over the per-call contract.",
         "note": "Trusted: pyvc's encoding of the Python subset (ints exact, floats as reals), z3/cvc5 unsat answers, xfrm "
-                "attributes as independent abstract fields (C09 obligation). Termination not proved.",
+                "attributes as independent abstract fields (C09 obligation). Termination not proved. The bounded C17.native_geometry "
+                "job repeats the facts through the public API (81 connectors x end-point moves, refused moves, nested group boxes "
+                "with zero-size members; never counted as proved).",
     },
     {
         "property_id": "C11",
@@ -25,7 +27,10 @@ CHECKS = [
         "note": "Assumed: IEEE double = reals (complemented by the bounded C11.ieee_probes job, never counted as proved); Python's "
                 "int()/float()/str.isdigit() lexical grammars (z3 regexes built from the interpreter's Unicode tables); XSD files are "
                 "the standard; XSD patterns using \\p{..}/class subtraction are undecided (ST_ContentType). 25 known findings "
-                "F17-F20 (known_findings.json); F1, F2, F11, F15 repaired by fix: commits.",
+                "F17-F20 (known_findings.json); F1, F2, F11, F15 repaired by fix: commits. Also: both spellings of one quantity "
+                "(percent string / universal measure vs plain integer) read as the same value; the rejection clause of every xmlchemy "
+                "attribute setter (rejected => nothing written); and the bounded C11.native_rejections job (object-model setters "
+                "with out-of-domain values: refused, nothing changes).",
     },
     {
         "property_id": "C20",
@@ -55,7 +60,12 @@ CHECKS = [
         "note": "Assumed: lxml element API contracts (find/append/addprevious/remove/iteration in document order, pyvc/elem.py); "
                 "BaseOxmlElement.remove_all enters as a summary (its findall loop is not proved); single-occurrence choice slots carry "
                 "the caller obligation 'other members absent' (listed in evidence notes). Declarations whose mutators are never "
-                "referenced carry no obligation (listed). F3, F12, F24, F25 found by these obligations and repaired by fix: commits.",
+                "referenced carry no obligation (listed). F3, F12, F24, F25 found by these obligations and repaired by fix: commits. "
+                "Hand-written members of the element classes (property setters, get_or_add_* / add_* / remove_* methods) carry a "
+                "generic contract 'children stay in schema order with schema multiplicities' on the same model (argument opaque or one "
+                "representative per kind the code asks about; what a child does to its own subtree is assumed not to move its "
+                "siblings); classes whose XSD type is not flattened, and members listed in _HW_NO_CONTRACT, are covered only by the "
+                "bounded C10.native_mutators job (the members singly and in ordered pairs on elements of real parts).",
     },
     {
         "property_id": "C06",
@@ -288,7 +298,8 @@ CHECKS.append({
             "build attributes or text; lxml members by a reader/writer table). A refuted clause is replayed natively: the accessor alone on fresh copies of the decks, with the child a "
             "get_or_add would create removed first when the corpus has no witness.",
     "note": "Accessors whose receivers cannot be typed are unresolved and covered only by the bounded C12.native_traversal job (every accessor on every reachable object of 15/61 decks, "
-            "isolated replays, traverse-save-traverse-save against a straight open-save; never counted as proved). 14 known findings F27/F28 (chart data-label / point accessors and "
+            "isolated replays, traverse-save-traverse-save against a straight open-save, a save before the first access to .slides, look-up methods called with own / foreign / absent "
+            "arguments; never counted as proved). Look-up methods (index, get, in, []) are analysed statically as calls; package-level writers (relate_to, drop_rel, ...) by a name table. 14 known findings F27/F28 (chart data-label / point accessors and "
             "pattern-fill colours create non-empty content without saying so); DataLabels.show_* repaired by a fix: commit.",
 })
 
